@@ -179,7 +179,17 @@ func compileOverlay(repo, file, content string) (bool, string, string) {
 	return ok, d, p
 }
 
+// compileOverlayM compiles with a bound of one minute; a run that exceeds it (the arr.ai importers behind foreign imports
+// take seconds each and the machine may be busy) is repeated once with a bound of ten minutes before it counts as a hang.
 func compileOverlayM(repo, file, content string) (bool, string, string, *sysl.Module) {
+	ok, digest, pan, m := compileOverlayT(repo, file, content, 60*time.Second)
+	if pan == "timeout" {
+		ok, digest, pan, m = compileOverlayT(repo, file, content, 600*time.Second)
+	}
+	return ok, digest, pan, m
+}
+
+func compileOverlayT(repo, file, content string, limit time.Duration) (bool, string, string, *sysl.Module) {
 	base := afero.NewReadOnlyFs(afero.NewBasePathFs(afero.NewOsFs(), repo))
 	fs := afero.NewCopyOnWriteFs(base, afero.NewMemMapFs())
 	if content != "" {
@@ -210,7 +220,7 @@ func compileOverlayM(repo, file, content string) (bool, string, string, *sysl.Mo
 	select {
 	case r := <-ch:
 		return r.ok, r.digest, r.pan, r.m
-	case <-time.After(60 * time.Second):
+	case <-time.After(limit):
 		return false, "", "timeout", nil
 	}
 }
